@@ -1103,7 +1103,7 @@ func (mgr *Manager) DelTag(name string) error {
 			}
 			// remove converter results of attached converters from cache
 			if len(tag.converters) > 0 {
-				for _, converter := range tag.converters {
+				for _, converter := range slices.Clone(tag.converters) {
 					if err := mgr.detachConverterFromTag(tag, name, converter); err != nil {
 						return err
 					}
@@ -1304,7 +1304,7 @@ func (mgr *Manager) UpdateTag(name string, operation UpdateTagOperation) error {
 					}
 				}
 				// detach deselected converters from tag
-				for _, converter := range tag.converters {
+				for _, converter := range slices.Clone(tag.converters) {
 					if slices.Contains(info.setConverterNames, converter.Name()) {
 						continue
 					}
